@@ -57,7 +57,7 @@ func genReq(t *rapid.T) reqCase {
 			c.Addrs = append(c.Addrs, rapid.StringN(0, 12, -1).Draw(t, "rawaddr"))
 		}
 	}
-	c.Alter = rapid.SampledFrom([]string{"none", "none", "key", "payloadtype", "payload", "signature", "rawflip", "rawflip", "domain", "crossfeed", "truncate"}).Draw(t, "alter")
+	c.Alter = rapid.SampledFrom([]string{"none", "none", "key", "payloadtype", "payload", "signature", "rawflip", "rawflip", "domain", "retype", "retype", "crossfeed", "truncate"}).Draw(t, "alter")
 	c.Pos = rapid.IntRange(0, 1<<20).Draw(t, "pos")
 	c.Bit = rapid.IntRange(0, 7).Draw(t, "bit")
 	c.OtherKey = gen.KeyIdx().Draw(t, "otherkey")
@@ -71,6 +71,14 @@ type foreign struct {
 }
 
 func (f foreign) Domain() string { return f.domain }
+
+// retyped wraps a record so that it is sealed for the right domain with another payload type.
+type retyped struct {
+	record.Record
+	codec []byte
+}
+
+func (r retyped) Codec() []byte { return r.codec }
 
 func sameEnvelope(a, b []byte) (same bool, parsed bool) {
 	var ea, eb recpb.Envelope
@@ -136,6 +144,30 @@ func runReq(c reqCase) pbt.Result {
 			if dom == "" {
 				return pbt.Result{Skip: true} // Seal refuses an empty domain
 			}
+			return merge(res, pbt.Failf("Seal: %v", err))
+		}
+		data, _ = env.Marshal()
+		altered = true
+	case "retype":
+		// same record, right domain, validly signed, but sealed with another payload type
+		var rec record.Record
+		if c.Kind == "ingest" {
+			rec = &model.IngestRequest{Multihash: c.MH, ProviderID: prov.ID, ContextID: c.CtxID, Metadata: c.Metadata, Addrs: c.Addrs, Seq: 7}
+		} else {
+			pr := peer.NewPeerRecord()
+			pr.PeerID = prov.ID
+			for _, a := range c.Addrs {
+				pr.Addrs = append(pr.Addrs, multiaddr.StringCast(a))
+			}
+			rec = pr
+		}
+		codecs := [][]byte{model.IngestRequestEnvelopePayloadType, peer.PeerRecordEnvelopePayloadType, []byte("unregistered-type"), {0x03, 0x99}}
+		codec := codecs[c.Pos%len(codecs)]
+		if bytes.Equal(codec, rec.Codec()) {
+			codec = codecs[(c.Pos+1)%len(codecs)]
+		}
+		env, err := record.Seal(retyped{Record: rec, codec: codec}, signer.Priv)
+		if err != nil {
 			return merge(res, pbt.Failf("Seal: %v", err))
 		}
 		data, _ = env.Marshal()
